@@ -47,6 +47,7 @@ VARIANTS = [
     ("B insert_many forwards a constant bucket", "aw_datastore/storages/abstract.py", "            self.insert_one(bucket_id, event)", "            self.insert_one(event.data.get('bucket', bucket_id), event)", "FORWARD"),
     ("B buckets.id not unique", SQ, "        id TEXT UNIQUE NOT NULL,", "        id TEXT NOT NULL,", "SCHEMA"),
     ("B bulk insert wrapped in `with self.conn` (rollback on error discards other buckets' buffered writes)", SQ, "        self.conn.executemany(query, event_rows)\n", "        with self.conn:\n            self.conn.executemany(query, event_rows)\n", "NO-ROLLBACK"),
+    ("B bulk upsert as INSERT OR REPLACE by global id", SQ, "            \"INSERT INTO events(bucketrow, starttime, endtime, datastr) \"\n            + \"VALUES ((SELECT rowid FROM buckets WHERE id = ?), ?, ?, ?)\"\n        )\n        self.conn.executemany(query, event_rows)", "            \"INSERT OR REPLACE INTO events(id, bucketrow, starttime, endtime, datastr) \"\n            + \"VALUES (?, (SELECT rowid FROM buckets WHERE id = ?), ?, ?, ?)\"\n        )\n        self.conn.executemany(query, [(None,) + r for r in event_rows])", "SCOPE"),
     ("OK conjunct order", SQ, "            WHERE bucketrow = (SELECT rowid FROM buckets WHERE id = ?) AND id = ?\n            LIMIT 1\n        \"\"\"\n        rows = c.execute(query, [bucket_id, event_id])", "            WHERE id = ? AND bucketrow = (SELECT rowid FROM buckets WHERE id = ?)\n            LIMIT 1\n        \"\"\"\n        rows = c.execute(query, [event_id, bucket_id])", "ok"),
     ("OK IN sub-select", SQ, "            WHERE bucketrow = (SELECT rowid FROM buckets WHERE id = ?)\n            AND endtime >= ? AND starttime <= ?\n            ORDER BY", "            WHERE bucketrow IN (SELECT rowid FROM buckets WHERE id = ?)\n            AND endtime >= ? AND starttime <= ?\n            ORDER BY", "ok"),
     ("OK peewee where order", PW, "                .where(EventModel.id == event_id)\n                .where(EventModel.bucket == self.bucket_keys[bucket_id])\n                .get()", "                .where(EventModel.bucket == self.bucket_keys[bucket_id])\n                .where(EventModel.id == event_id)\n                .get()", "ok"),
